@@ -592,6 +592,32 @@ def _fd_low_rank_pack(eigvecs, deflated_eigs, inverted_eigs, new_const,
   return precond
 
 
+def _resize_packed_rows(preconditioner, rows, rank):
+  """Pads/slices the rows of a packed low-rank preconditioner, keeping its slots.
+
+  The packed layout keeps the eigenvalues and the has_zeros flag in its *last*
+  rows, so plain zero-padding (or slicing) of the rows would move them out of
+  place; re-pack instead.
+  """
+  rank = abs(rank)
+  eigvecs, eigvals, inverted_eigvals, const, tail, has_zeros = (
+      _fd_low_rank_unpack(preconditioner, rank))
+  cur = eigvecs.shape[0]
+  if rows >= cur:
+    eigvecs = jnp.pad(eigvecs, ((0, rows - cur), (0, 0)))
+  else:
+    eigvecs = eigvecs[:rows]
+  return _fd_low_rank_pack(eigvecs, eigvals, inverted_eigvals, const, tail,
+                           has_zeros, rank).astype(preconditioner.dtype)
+
+
+def _slice_preconditioner(preconditioner, shape, rank):
+  """Cuts a padded preconditioner back to `shape` (packed ones are re-packed)."""
+  if _should_compress(rank, shape[0]) and preconditioner.shape[0] != shape[0]:
+    return _resize_packed_rows(preconditioner, shape[0], rank)
+  return preconditioner[:shape[0], :shape[1]]
+
+
 def power_iteration(
     matrix: jnp.ndarray,
     num_iters: int = 100,
@@ -2169,6 +2195,9 @@ def distributed_shampoo(
       pad_cols = [(0, pd - c)]
       padding = pad_rows + pad_cols
       preconditioner = maybe_reset_preconditioner(step, preconditioner)
+      if compression_rank and r != c and r < max_size:
+        # Packed low-rank preconditioner: keep its end-relative slots in place.
+        return _resize_packed_rows(preconditioner, max_size, compression_rank)
       return jnp.pad(preconditioner, padding)
 
     last_dims_padded = [_pad_preconditioner(p) for p in preconditioners]
@@ -2971,7 +3000,8 @@ def distributed_shampoo(
     for p, shape, prev_p, error in zip(preconditioners_flat, original_shapes,
                                        prev_preconditioners, new_errors_flat):
       new_preconditioners_flat.append(
-          _select_preconditioner(error, p[:shape[0], :shape[1]], prev_p))
+          _select_preconditioner(
+              error, _slice_preconditioner(p, shape, compression_rank), prev_p))
 
     assert len(states) == len(num_statistics_per_state)
     assert len(new_preconditioners_flat) == num_statistics
@@ -3418,7 +3448,8 @@ def distributed_shampoo(
                                        prev_preconditioners, new_errors_flat):
       new_preconditioners_flat.append(
           _select_preconditioner(error.inverse_pth_root_errors,
-                                 p[:shape[0], :shape[1]], prev_p))
+                                 _slice_preconditioner(p, shape, compression_rank),
+                                 prev_p))
 
     assert len(states) == len(num_statistics_per_state)
     assert len(new_preconditioners_flat) == num_statistics
